@@ -467,6 +467,19 @@ def where_path(case):
     return bare and len(index) == 1 and isinstance(index[0], tuple) and index[0][0] in ("db", "db2") and np.ndim(np_index(index[0])) == len(shp)
 
 
+def expand(index, ndim):
+    """per-array-axis index items: Ellipsis expanded, missing trailing axes filled with full slices, None dropped"""
+    items = [t for t in index if t != "None"]
+    k = ndim - sum(1 for t in items if t != "...")
+    out = []
+    for t in items:
+        if t == "...":
+            out.extend([FULL] * k)
+        else:
+            out.append(t)
+    return out + [FULL] * (ndim - len(out))
+
+
 def known_class(case):
     """narrow input classes of the recorded findings (C21.findings.json); the class replaces the case kind in the finding key,
     so any OTHER failure on the same inputs, and the same failure on other inputs, still has a different key"""
@@ -478,6 +491,12 @@ def known_class(case):
         if tuple(index[0][2]) != tuple(ch):
             return "where-path-mask-chunks-differ"
         return None
+    tshape = target_shape(shp, index)
+    if tshape is not None and 0 in tshape and vkd in ARRAYVALUED:
+        for t, n in zip(expand(index, len(shp)), shp):
+            if isinstance(t, tuple) and t[0] == "s" and t[3] is not None and t[3] < 0 and len(range(*slice(t[1], t[2], t[3]).indices(n))) == 0:
+                return "empty-negstep-slice+empty-value"
+        return "empty-selection+empty-value"
     ints = [i for i, t in enumerate(index) if isinstance(t, int)]
     if vkd == "x1" and ints:
         return "extra-leading-axis-value+int-index"
@@ -489,13 +508,6 @@ def known_class(case):
         return "int-before-index-array"
     if any(isinstance(t, tuple) and t[0] == "db" for t in index) and vkd in ("b1", "bc", "row", "dabc"):
         return "dask-bool-index+broadcast-value"
-    tshape = target_shape(shp, index)
-    if tshape is not None and 0 in tshape and vkd in ARRAYVALUED:
-        axes = [t for t in index if t != "..."]
-        for t, n in zip(axes, shp):
-            if isinstance(t, tuple) and t[0] == "s" and t[3] is not None and t[3] < 0 and len(range(*slice(t[1], t[2], t[3]).indices(n))) == 0:
-                return "empty-negstep-slice+empty-value"
-        return "empty-selection+empty-value"
     return None
 
 
